@@ -25,7 +25,7 @@ def _check_hyperplane_unit(ctx, tag, data, v, n):
     ctx.ensure(tag + 'rows_independent', det(data, ctx) ** 2, '>', 0)
 
 
-@rcontract(P, "hyperplane_from_normal", instances=[dict(n=2, stratum=s_) for s_ in SPACELIKE_STRATA], thorough=[dict(n=3, stratum="generic")], timeout=150.0, max_paths=60,
+@rcontract(P, "hyperplane_from_normal", instances=[dict(n=2, stratum=s_) for s_ in SPACELIKE_STRATA] + [dict(n=3, stratum="generic")], thorough=[], timeout=150.0, max_paths=60,
            functions=[H + "Hyperplane.__init__", H + "Hyperplane._compute_ideal_basis", H + "spacelike_to", H + "DualPoint.__init__",
                       "geometry_tools/projective.py:Transformation.apply", U + "find_isometry"])
 def hyperplane_from_normal(ctx, n, stratum):
@@ -35,7 +35,7 @@ def hyperplane_from_normal(ctx, n, stratum):
     _check_hyperplane_unit(ctx, '', Hp.proj_data, v, n)
 
 
-@rcontract(P, "reflection_across", instances=[dict(n=2, stratum=s_) for s_ in SPACELIKE_STRATA], thorough=[dict(n=3, stratum="generic")], timeout=150.0, max_paths=60,
+@rcontract(P, "reflection_across", instances=[dict(n=2, stratum=s_) for s_ in SPACELIKE_STRATA] + [dict(n=3, stratum="generic")], thorough=[], timeout=150.0, max_paths=60,
            functions=[H + "Subspace.reflection_across", H + "Hyperplane._data_with_dual", U + "invert"])
 def reflection_across(ctx, n, stratum):
     """involutive, orientation-reversing isometry fixing every point of the hyperplane and negating its normal"""
